@@ -708,9 +708,13 @@ class Remoter(tyming.Tymee):
 
     def refresh(self):
         """
-        Restart tymer
+        Restart tymer from current tyme so idle tymeout is measured from latest
+        traffic. Lossless restart from last stop only when no tymth to get tyme from.
         """
-        self.tymer.restart()
+        if self.tymer.tymth:
+            self.tymer.start()
+        else:
+            self.tymer.restart()
 
 
     def receive(self):
